@@ -274,6 +274,62 @@ AliasCases ==
   Flat(Map(<<254, 255, 256>>, LAMBDA n : Map(<< BInt(5), Zero, Rnd(61) >>, LAMBDA x :
         [g |-> "decomposition-alias", n |-> n, x |-> x, expect |-> Unsat, ops |-> AliasOps(x, n)])))
 
+\* ---- alias adversaries (C10 / C11): the specification's own honest generators are
+\* run on the INTEGER x + r in place of the input (all derived witnesses are then the
+\* consistent "wrapped" decomposition); the differing witnesses become overrides.
+\* The returned value differs from the canonical one, so the relation says: no
+\* satisfying assignment -> CircuitUnsatisfied.
+InState(x) == C!Alloc(C!Initialized, x)                 \* the input is witness 7
+InState2(x, y) == C!Alloc(C!Alloc(C!Initialized, x), y)  \* inputs are witnesses 7, 8
+Overrides(honest, aliased, fixed) ==
+  LET idx == {w \in 1..Len(honest) : w \notin fixed /\ honest[w] # aliased[w]}
+      RECURSIVE toSeq(_)
+      toSeq(S) == IF S = {} THEN << >>
+                  ELSE LET m == CHOOSE a \in S : \A b \in S : a <= b
+                       IN << [op |-> "set_witness", w |-> m - 1, v |-> aliased[m]] >> \o toSeq(S \ {m})
+  IN toSeq(idx)
+
+TruncAlias(n, x) ==
+  LET honest == C!Truncate(InState(x), 7, n).st.vals
+      aliased == C!Truncate(InState(BigAdd(x, R)), 7, n).st.vals
+  IN [g |-> "truncate-alias", n |-> n, x |-> x, expect |-> Unsat,
+      ops |-> << Wt(x, "x"), [op |-> "truncate", w |-> "x", n |-> n, out |-> "t"] >>
+              \o Overrides(honest, aliased, {7})]
+LogicAlias(p, xor, x, y) ==
+  LET honest == C!Logic(InState2(x, y), 7, 8, p, xor).st.vals
+      aliased == C!Logic(InState2(BigAdd(x, R), y), 7, 8, p, xor).st.vals
+  IN [g |-> "logic-alias", n |-> p, xor |-> xor, x |-> x, expect |-> Unsat,
+      ops |-> << Wt(x, "x"), Wt(y, "y"),
+                 [op |-> "logic", a |-> "x", b |-> "y", pairs |-> p, xor |-> xor, out |-> "o"] >>
+              \o Overrides(honest, aliased, {7, 8})]
+AliasX == << BInt(5), BigLow(Rnd(81), 250) >>
+TruncAliasCases ==
+  Flat(Map(IF Quick THEN <<1, 8, 200, 254>> ELSE <<1, 2, 8, 64, 127, 128, 199, 200, 201, 250, 253, 254>>,
+           LAMBDA n : Map(AliasX, LAMBDA x : TruncAlias(n, x))))
+LogicAliasCases ==
+  Flat(Map(IF Quick THEN <<1, 100, 127>> ELSE <<1, 2, 32, 64, 99, 100, 101, 125, 126, 127>>,
+           LAMBDA p : Flat(Map(<<TRUE, FALSE>>, LAMBDA o : Map(AliasX, LAMBDA x : LogicAlias(p, o, x, Rnd(82)))))))
+
+\* ---- signed-digit adversaries (C14): digit vectors encoding s + q, s + r, q, through
+\* the seam over append_fixed_base_signed_digits (honest accumulators FOR THOSE DIGITS)
+RECURSIVE NafIntRec(_, _, _)
+\* non-adjacent form of the INTEGER k < 2^259 (no modular reduction), n digits
+NafIntRec(kk, n, acc) ==
+  IF n = 0 THEN acc
+  ELSE IF BigBit(kk, 0) = 0 THEN NafIntRec(BigShr(kk, 1), n - 1, Append(acc, 0))
+  ELSE IF BigBit(kk, 1) = 1 THEN NafIntRec(BigShr(BigAdd(kk, BigOne), 1), n - 1, Append(acc, -1))
+  ELSE NafIntRec(BigShr(BigSub(kk, BigOne), 1), n - 1, Append(acc, 1))
+NafInt(kk) == NafIntRec(kk, 256, << >>)
+DigitCase(name, s, kk) ==
+  [g |-> "fixed-digits/" \o name, expect |-> Unsat,
+   ops |-> << Wt(s, "s"), [op |-> "fixed_base_digits", s |-> "s", pt |-> PtJ(JubJubG), digits |-> NafInt(kk), out |-> "R"] >>]
+DigitCases ==
+  Flat(Map(<< BInt(5), BigLow(Rnd(91), 250), Zero >>, LAMBDA s :
+    << DigitCase("s+q", s, BigAdd(s, RJ)), DigitCase("s+2q", s, BigAdd(s, BigAdd(RJ, RJ))),
+       DigitCase("s+r", s, BigAdd(s, R)), DigitCase("s+1", s, BigAdd(s, BigOne)) >>))
+  \o << [g |-> "fixed-digits/honest", expect |-> Ok(GMul(BInt(77))),
+         ops |-> << Wt(BInt(77), "s"), [op |-> "fixed_base_digits", s |-> "s", pt |-> PtJ(JubJubG), digits |-> NafInt(BInt(77)), out |-> "R"] >>] >>
+
 \* ---- C07: one template (component + constant parameters), many value vectors ----
 ShapeVals == << Zero, One, M1, BInt(2), BigSub(RJ, BigOne), RJ, BSub(P2(252), One), P2(252), P2(254),
                 BSub(P2(254), One), Rnd(71), Rnd(72) >>
@@ -350,6 +406,9 @@ AllCases ==
     [] Family = "decomposition" -> DecompCases
     [] Family = "decomposition-alias" -> AliasCases
     [] Family = "shape" -> ShapeCases
+    [] Family = "truncate-alias" -> TruncAliasCases
+    [] Family = "logic-alias" -> LogicAliasCases
+    [] Family = "fixed-digits" -> DigitCases
     [] Family = "truncate" -> TruncCases
     [] Family = "logic" -> LogicCases
     [] Family = "arith" -> ArithCases
